@@ -84,6 +84,21 @@ theorem C10_creator_roundtrip (pick : Pick) (chunks : List (List UInt8)) (bytes 
       exact ⟨_, parse_serialize _ hok hs, rfl, toIndex_sorted pick st _ hc⟩
     · simp [hs] at h
 
+/-- The self-indexing map is a function of the whole text (its 1 MiB reads are one particular chunking),
+and it never hits the `unwrap` of `make_symbol_map` for a text shorter than 2^64 bytes. -/
+theorem C10_self_map_no_unwrap_panic (pick : Pick) (text : List UInt8) (hlen : text.length < pow64)
+    (h : mapSelf pick text = .panic) : index pick [text] = .panic := by
+  rw [mapSelf_eq] at h
+  split at h
+  · cases h
+  · cases hi : index pick [text] with
+    | panic => rfl
+    | err => simp [hi] at h
+    | ok bytes =>
+      simp only [hi] at h
+      obtain ⟨ix, hp, _⟩ := C10_creator_roundtrip pick [text] bytes (by simpa using hlen) hi
+      simp [hp] at h
+
 /-- A symbol map that is handed a stored index built from the same text — in any chunking, e.g. the
 chunks of the download — is the same map as the one that indexes the file itself (in 1 MiB reads): same
 parsed index, hence the same answer to every lookup. (Since fix 3f61c23c the stored index is used only if
